@@ -43,3 +43,7 @@ chk('C10', 'exploration',
     'Generated symbol x kind x integer/fractional scale x border x colour x SVG/TeX/PDF option combinations are written by segno and interpreted by independent SVG / PostScript / PDF / PGF interpreters with exact Fractions; the painted unit squares must equal the dark modules (once each, nothing outside), page size, colours, background coverage, PDF /Length and xref offsets are checked. A grid of 29 scales x light on/off x 4 kinds is enumerated.',
     'Trusted: vlib/vector.py interpreters (self-tested on hand-written documents); tolerance 1e-6 for printed floats.',
     'Hypothesis search, documents interpreted and rasterised on the module grid by independent readers', 'DESIGN.md 4/C10')
+chk('C11', 'exploration',
+    'Every value yielded by matrix_iter (plain and verbose) for all 44 symbol sizes x borders x scales is compared with the module value / the type the ISO function-pattern map assigns to the position (exhaustive over positions); invalid borders / scales must raise ValueError; colourful PNG / SVG / PPM outputs with generated subsets of the 15 per-type colour options are parsed and every cell is compared with the colour configured for the type of its module. One known finding (K2) is matched at exactly one coordinate.',
+    'Trusted: function-pattern map of vlib/qrref.py, raster/vector readers. Positions exhaustive; colour option subsets sampled.',
+    'exhaustive enumeration of module positions + Hypothesis search over colour maps, outputs parsed by independent readers', 'DESIGN.md 4/C11')
